@@ -1,6 +1,6 @@
 (* C05 - a process crash at any point never loses or tears an object.  Statements only. *)
 From Coq Require Import List ZArith NArith.
-From DOS Require Import Base Store StoreProofs StoreLemmas Programs ProgramsProofs PackProofs MaintProofs.
+From DOS Require Import Base Store StoreProofs StoreLemmas Programs ProgramsProofs PackProofs MaintProofs RepackProofs.
 Import ListNotations.
 
 Section C05.
@@ -58,6 +58,22 @@ Theorem C05_delete_every_crash_point : forall w l ks m,
   Inv H inflate w' /\ (forall k c, ~ In k ks -> stored inflate w k = Some c -> stored inflate w' k = Some c).
 Proof. intros w l ks m A B. exact (delete_always H inflate w l ks A B m). Qed.
 
+(* (2e) repack_pack: write pack -1, fsync, re-point rows, COMMIT, unlink old pack, link -1 back, re-point, COMMIT, unlink -1 -
+   ALL worlds, live-row sets, recompressed blobs, EVERY crash point: the invariant holds (rows point at -1 or at the id, both existing
+   with the right bytes - the 'fails loudly' case of the property is the library refusing pack id -1, the data are intact) and every
+   key reads back exactly as before *)
+Theorem C05_repack_every_crash_point : forall w l id objs m,
+  Inv H inflate w -> pending l = [] -> id <> REPACK -> get_pack w REPACK = None ->
+  Forall (robj_ok inflate w id) objs -> NoDup (map okey objs) ->
+  (forall r, In r (db w) -> rpack r = id -> In (rkey r) (map okey objs)) ->
+  rows_of_pack (db w) id <> [] ->
+  let w' := crash (run_events (w, l) (firstn m (p_repack_one w id objs))) in
+  Inv H inflate w' /\ (forall k c, stored inflate w k = Some c -> stored inflate w' k = Some c).
+Proof.
+  intros w l id objs m A B C D E F G I.
+  destruct (repack_crash_safe H inflate H_inj w l id objs false m A B C D E F G I) as (X & Y & _). split; assumption.
+Qed.
+
 (* (3) what a new handle returns for a visible key has the key as digest: right bytes, never another object's *)
 Theorem C05_new_handle_never_wrong_bytes : forall w k c, Inv H inflate w -> stored inflate w k = Some c -> H c = k.
 Proof. exact (stored_sound H inflate). Qed.
@@ -72,5 +88,6 @@ Print Assumptions C05_add_loose_every_crash_point.
 Print Assumptions C05_pack_every_crash_point.
 Print Assumptions C05_clean_every_crash_point.
 Print Assumptions C05_delete_every_crash_point.
+Print Assumptions C05_repack_every_crash_point.
 Print Assumptions C05_new_handle_never_wrong_bytes.
 Print Assumptions C05_any_spill.
